@@ -419,6 +419,67 @@ theorem prefixMatch_iff (r : RE) (p : Option Ch) (w : List Ch) (n : Option Ch) :
         exact .inr ⟨u, v, rfl, hm⟩
 
 
+/-- `lmsGo` finds a position where a match starts, and no match starts before it -/
+theorem lmsGo_some (r : RE) (w : List Ch) (p : Option Ch) (i j : Nat) (h : lmsGo r p w i = some j) :
+    ∃ u v, w = u ++ v ∧ j = i + u.length ∧ prefixMatch r (ctxL p u) v none = true ∧
+      ∀ u' v', w = u' ++ v' → u'.length < u.length → prefixMatch r (ctxL p u') v' none = false := by
+  induction w generalizing p i with
+  | nil =>
+    simp only [lmsGo] at h
+    split at h
+    · rename_i hn
+      cases h
+      refine ⟨[], [], rfl, rfl, by simpa [prefixMatch] using hn, ?_⟩
+      intro u' v' _ hl; simp at hl
+    · cases h
+  | cons c w ih =>
+    simp only [lmsGo] at h
+    split at h
+    · rename_i hm
+      cases h
+      refine ⟨[], c :: w, rfl, rfl, by simpa using hm, ?_⟩
+      intro u' v' _ hl; simp at hl
+    · rename_i hm
+      obtain ⟨u, v, rfl, hj, hpm, hmin⟩ := ih (some c) (i + 1) h
+      refine ⟨c :: u, v, rfl, by simp [hj]; omega, by rw [ctxL_cons]; exact hpm, ?_⟩
+      intro u' v' heq hl
+      cases u' with
+      | nil =>
+        simp at heq; subst heq
+        simpa using hm
+      | cons d u'' =>
+        simp at heq
+        obtain ⟨rfl, heq⟩ := heq
+        rw [ctxL_cons]
+        exact hmin u'' v' heq (by simpa using hl)
+
+/-- `lmsGo` answers `none` only if no match starts anywhere -/
+theorem lmsGo_none (r : RE) (w : List Ch) (p : Option Ch) (i : Nat) (h : lmsGo r p w i = none) :
+    ∀ u v, w = u ++ v → prefixMatch r (ctxL p u) v none = false := by
+  induction w generalizing p i with
+  | nil =>
+    intro u v heq
+    have : u = [] ∧ v = [] := by simpa using heq.symm
+    obtain ⟨rfl, rfl⟩ := this
+    simp only [lmsGo] at h
+    split at h
+    · cases h
+    · rename_i hn; simpa [prefixMatch] using hn
+  | cons c w ih =>
+    simp only [lmsGo] at h
+    split at h
+    · cases h
+    · rename_i hm
+      intro u v heq
+      cases u with
+      | nil => simp at heq; subst heq; simpa using hm
+      | cons d u' =>
+        simp at heq
+        obtain ⟨rfl, heq⟩ := heq
+        rw [ctxL_cons]
+        exact ih _ (i + 1) h u' v heq
+
+
 /-! ### back-reference resolution -/
 
 theorem digitsVal_append_single (l : List Nat) (d : Nat) : digitsVal (l ++ [d]) = digitsVal l * 10 + d := by
